@@ -11,8 +11,10 @@ spec:      spec/WatchFile.tla        text as symbol sequences (opaque words + th
            spec/WatchFileObjs.tla    heap model: every constructor / parse owns its lists (HeapAgrees, Unshared)
            spec/WatchFileExpand.tla  expand(): symbol-wise statement vs. the code's sequence of replace passes
            spec/TraceWatchFile.tla   trace validation (parse prefix by prefix, API histories, expand)
-model checking: WatchFile_quick_layout / _quick_seq (thorough: _layout, _cut2, _pairs, _seq3, _gaps): ParseOK,
-           RoundTrip (incl. normal form), NoVersion, InnerSkipped, BadOK in every state.  Negative controls,
+model checking: WatchFile_quick_layout (7 850 states) / _quick_seq (9 540); thorough: _layout (22 578), _cut2 (39 926),
+           _quick_seq, _pairs (153 902), _seq3 (47 730), _gaps (80 736): ParseOK, RoundTrip (incl. normal form), NoVersion,
+           InnerSkipped, BadOK in every state; every state is replayed (thorough: canonical form for every 3rd state with all
+           probes, a sampled concretization for the others).  Negative controls,
            re-run in every check (each must make TLC report the named invariant): StripIndentV3 -> ParseOK,
            LeakBlank -> ParseOK (what the CODE does: finding 1), NeverQuote -> RoundTrip, PPKnown = FALSE ->
            RoundTrip (finding 2, a defect of the format design visible in the model), CommentEndsCont ->
@@ -46,7 +48,8 @@ unspecified (executed, compared with the model, recorded as drift only): folds w
            continuation (only the warning is required).
 domain:    words contain no white space (Unicode), none of  " , ( )  and no '/' (the url head, options, a separate pattern and the script may),
            do not start with '#' or end with a backslash, are not numerals; blanks are ' ' and TAB; options are
-           non-empty; lines end in LF or nothing (no CR); text input only (str).
+           non-empty; a list of options with both a '"' and a blank is read but outside the round trip (the format has no
+           escape); lines end in LF or nothing (no CR); text input only (str).
 """
 import copy
 import io
@@ -1521,9 +1524,18 @@ def replay(ctx, case):
             if case["tkind"] == "parse":
                 tr = record_parse(rng, conc, Reader(conc), case["lines"], case["strict"], case["src"], case["nl"], nobs=200)
             else:
-                live, events = [], []
-                for ev in case["recipe"]:
-                    events.append(api_step(conc, Reader(conc), live, dict(ev)))
+                # the history is run twice and the second run is validated: what earlier histories of the same process
+                # left behind (a shared default list ...) is part of what made the recorded one fail
+                for _round in range(2):
+                    live, events = [], []
+                    for ev in case["recipe"]:
+                        events.append(api_step(conc, Reader(conc), live, dict(ev)))
+                    if _round == 0:
+                        for w in live:
+                            try:
+                                mutate_result(w)
+                            except Exception:       # noqa: BLE001
+                                pass
                 tr = {"kind": "api", "events": events}
         acc, prog, _ = core.validate_traces(ctx, "TraceWatchFile", "TraceWatchFile.cfg", [tr], extra_env={"TRACE_DIAG": "1"}, java_opts=["-Xss64m"])
         if 1 not in acc:
